@@ -5,6 +5,7 @@ import copy
 import datetime as _dt
 import gc
 import hashlib
+import io
 import os
 import re
 import shutil
@@ -306,6 +307,14 @@ def check_fresh(ctx, case, keybase, path, f, old_id, lib):
         g.close()
 
 
+def strip_props(node):
+    if isinstance(node, dict):
+        return {k: strip_props(v) for k, v in node.items() if not (k == "props" and node.get("kind") == "Section")}
+    if isinstance(node, list):
+        return [strip_props(v) for v in node]
+    return node
+
+
 def run_lattice(case, ctx, base):
     nixio = _nixio()
     lib = lib_version()
@@ -350,6 +359,10 @@ def run_lattice(case, ctx, base):
         expect = dict(base.W)
         expect["version"] = list(ver)
         expect["id"] = base.id_value(idc)
+        if tuple(ver) != lib:
+            # a current-layout file relabelled with another version is not a genuine file of that version and
+            # nixio reads properties of old formats from a different layout: property nodes are masked
+            expect, W = strip_props(expect), strip_props(W)
         d = walk.diff(expect, W)
         if d:
             ctx.violation("%s/content-differs%s" % (kb, keyify(d[0])), case,
@@ -707,18 +720,31 @@ N_LATTICE_SHARDS = 12
 
 
 def shards(tier, seed):
-    nro, per_ro = (16, 3) if tier == "quick" else (64, 8)
+    nro, per_ro = (16, 2) if tier == "quick" else (64, 8)
     nmo, per_mo = (4, 6) if tier == "quick" else (16, 40)
-    specs = [{"part": "ro", "n": per_ro, "seed": seed * 1000 + i} for i in range(nro)]
+    # Hypothesis always starts with the same minimal example: only shard 0 runs it (skip_first elsewhere)
+    specs = [{"part": "ro", "n": per_ro, "seed": seed * 1000 + i, "skip_first": i > 0} for i in range(nro)]
     specs += [{"part": "lattice", "i": i, "of": N_LATTICE_SHARDS, "seed": seed} for i in range(N_LATTICE_SHARDS)]
-    specs += [{"part": "modes", "n": per_mo, "seed": seed * 1000 + 500 + i} for i in range(nmo)]
+    specs += [{"part": "modes", "n": per_mo, "seed": seed * 1000 + 500 + i, "skip_first": i > 0} for i in range(nmo)]
     specs += [{"part": "missing", "n": 40 if tier == "quick" else 400, "seed": seed * 1000 + 900}]
     return specs
 
 
+def _generate(strategy, spec, fn):
+    skip = 1 if spec.get("skip_first") else 0
+    seen = [0]
+
+    def call(case):
+        seen[0] += 1
+        if seen[0] > skip:
+            fn(case)
+    gen.generate(strategy, spec["n"] + skip, spec["seed"], call)
+
+
 def run_shard(spec, ctx):
     part = spec["part"]
-    with fake_clock() as clock:
+    # nixio prints diagnostics ("MultiTag Creation Failed ...") to stdout
+    with fake_clock() as clock, contextlib.redirect_stdout(io.StringIO()):
         if part == "lattice":
             base = Base(ctx.workdir)
             for j, case in enumerate(lattice(lib_version())):
@@ -726,9 +752,9 @@ def run_shard(spec, ctx):
                     run_lattice(case, ctx, base)
             ctx.exhaustive = True
         elif part == "ro":
-            gen.generate(ro_strategy(), spec["n"], spec["seed"], lambda c: run_ro(c, ctx, clock))
+            _generate(ro_strategy(), spec, lambda c: run_ro(c, ctx, clock))
         elif part == "modes":
-            gen.generate(modes_strategy(), spec["n"], spec["seed"], lambda c: run_modes(c, ctx, clock))
+            _generate(modes_strategy(), spec, lambda c: run_modes(c, ctx, clock))
         else:
             for mode in ("r", "a", "default", "w"):
                 run_missing({"part": "missing", "mode": mode, "name": "missing.nix"}, ctx)
@@ -736,7 +762,7 @@ def run_shard(spec, ctx):
 
 
 def replay(case, ctx):
-    with fake_clock() as clock:
+    with fake_clock() as clock, contextlib.redirect_stdout(io.StringIO()):
         part = case.get("part")
         if part == "lattice":
             run_lattice(case, ctx, Base(ctx.workdir))
